@@ -90,6 +90,9 @@ int main(int argc, char** argv) {
 #else
   VERIF_ENTRY();
 #endif
+#if !defined(VERIF_BC_BUILD) && !defined(VERIF_NATIVE)
+  { extern int verif_exc_pending; if (verif_exc_pending) { printf("ASSERT-FAIL uncaught exception escaped harness\n"); return 1; } }
+#endif
   printf("OBS %016llx\n", (unsigned long long)obs);
   return 0;
 }
